@@ -85,6 +85,7 @@ def gen_schema(rng, depth=2):
     if depth > 0:
         for name in rng.sample(["s1", "s2"], rng.randint(0, 2)):
             subs[name] = gen_schema(rng, depth - 1)
+            subs[name]["ctype"] = rng.random() < 0.35          # the nested configuration is declared through a config type
     return {"includes": incs, "subs": subs}
 
 
@@ -94,8 +95,16 @@ def build_schema(sk, startdir):
     for inc in sk["includes"]:
         s._add_field(inc, IncludeField(startdir=startdir))
     for name, sub in sk["subs"].items():
-        s._add_field(name, build_schema(sub, startdir))
+        built = build_schema(sub, startdir)
+        if sub.get("ctype"):
+            from cincoconfig import make_type
+            COUNTER[0] += 1
+            built = make_type(built, "Section%d" % COUNTER[0])
+        s._add_field(name, built)
     return s
+
+
+COUNTER = [0]
 
 
 def wire_schema(sk):
